@@ -31,13 +31,14 @@ from harness.lib import common as C
 from harness.drivers.C11 import py_comp, py_idx, coq_comp, FULL, exc_name, all_ints, kind
 
 COQ_TARGETS = ["Models/C06_index.vo", "Models/C06_lazyslice.vo", "Gen/LazySlice_gen.vo",
-               "Proofs/C06_lazyslice.vo", "Proofs/C06_index.vo"]
+               "Proofs/C06_lazyslice.vo", "Proofs/C06_index.vo", "Models/C06_bcast.vo", "Proofs/C06_bcast.vo"]
 LEVEL_NOTE = ("theorems are about the Gallina model (entrywise kernels under gather, multi-output layout, kernel "
               "state table) and about the slice-division arithmetic REGENERATED from the source (fail-closed ast "
               "translation, obligations re-proved each run); everything else is tied to /repo differentially: "
               "exhaustive index expressions on small shapes, implementation vs torch-on-dense vs the Coq index model")
 IMPORTS = ("From Coq Require Import List ZArith String.\n"
-           "From GPV Require Import Base.PySlice Models.C11_mtmvn Models.C06_index Models.C06_lazyslice Gen.LazySlice_gen.")
+           "From GPV Require Import Base.PySlice Models.C11_mtmvn Models.C06_index Models.C06_lazyslice Gen.LazySlice_gen "
+           "Models.C06_bcast.")
 LO, HI = -5, 5
 BOUNDS = [None] + list(range(LO, HI + 1))
 ATOL = 1e-10
@@ -222,15 +223,19 @@ def coq_steps(steps):
 # --------------------------------------------------------------------------- kernels
 
 def lin(g, lo, hi, *shape):
-    return lo + (hi - lo) * torch.rand(*shape, generator=g)
+    return lo + (hi - lo) * torch.rand(torch.Size(shape), generator=g)
 
 
 class Cfg:
-    """one kernel + inputs; K() builds a fresh kernel(x1, x2, **kw) (lazy by default)"""
+    """one kernel + inputs; K() builds a fresh kernel(x1, x2, **kw) (lazy by default).  D, the dense tensor that index
+    expressions are applied to for "evaluate first, index afterwards", does NOT come from the lazily evaluated tensor
+    under test: it is `ref` when given (assembled per batch element from unbatched kernels, see run_broadcast_checks),
+    else the EAGER evaluation (lazily_evaluate_kernels(False): Kernel.forward, no LazyEvaluatedKernelTensor); that the
+    lazy tensor reports this shape and densifies to these numbers is checked separately (check_lazy_dense)."""
 
-    def __init__(self, name, kernel, x1, x2, p=1, kw=None, fam="single", geom="origin"):
+    def __init__(self, name, kernel, x1, x2, p=1, kw=None, fam="single", geom="origin", ref=None):
         self.name, self.kernel, self.x1, self.x2, self.p, self.kw, self.fam = name, kernel, x1, x2, p, kw or {}, fam
-        self._D = None
+        self._D = ref
         self.geom = geom
         with torch.no_grad():
             self.tol, self.tolinfo = tol_for(kernel, geom, x1, x2)
@@ -244,8 +249,36 @@ class Cfg:
     def D(self):
         if self._D is None:
             with torch.no_grad():
-                self._D = self.K().to_dense().detach().clone()
+                self._D = dense(self.K(lazy=False)).detach().clone()
         return self._D
+
+
+def check_lazy_dense(out, cfg):
+    """the lazily evaluated tensor reports the shape of, and densifies to, the reference dense tensor"""
+    case = dict(cfg=cfg.name, x1=list(cfg.x1.shape), x2=list(cfg.x2.shape), kernel_batch=list(cfg.kernel.batch_shape),
+                shape=list(cfg.D.shape))
+    out.case(dict(case, what="lazy-shape-and-dense"), True, label="lazy-shape-and-dense")
+    if cfg.fam == "eager":
+        return
+    try:
+        with torch.no_grad():
+            Kl = cfg.K()
+            shp = list(Kl.shape)
+    except Exception as e:
+        out.fail("lazy:%s:shape:raises-%s" % (cfg.name, exc_name(e)), "kernel(x1,x2).shape raises %r" % (repr(e)[:200],), case)
+        return
+    if shp != list(cfg.D.shape):
+        out.fail("lazy:%s:shape" % cfg.name, "lazily evaluated kernel(x1,x2) reports shape %s, the evaluated kernel has shape %s"
+                 % (shp, list(cfg.D.shape)), case, impl=shp, model=list(cfg.D.shape))
+    try:
+        with torch.no_grad():
+            Dl = dense(cfg.K())
+    except Exception as e:
+        out.fail("lazy:%s:to_dense:raises-%s" % (cfg.name, exc_name(e)), "kernel(x1,x2).to_dense() raises %r" % (repr(e)[:200],), case)
+        return
+    if tuple(Dl.shape) != tuple(cfg.D.shape) or not torch.allclose(Dl, cfg.D, atol=cfg.tol, rtol=0):
+        out.fail("lazy:%s:to_dense" % cfg.name, "kernel(x1,x2).to_dense() (shape %s) differs from the evaluated kernel (shape %s)"
+                 % (list(Dl.shape), list(cfg.D.shape)), case, impl=Dl, model=cfg.D)
 
 
 def make_configs(seed):
@@ -288,6 +321,14 @@ def make_configs(seed):
     cf.append(Cfg("rbf-batch2-k", rbf(bs=(2, 2)), X(3, 2), X(2, 1, 4, 2), fam="batch"))
     mt2 = gk.MultitaskKernel(rbf(), num_tasks=2, rank=1)
     cf.append(Cfg("multitask-batch-x", mt2, X(2, 2, 2), X(2, 2, 2), p=2, fam="multi-output-batch"))
+    # batch dimensions carried by ONE operand only (x1 / x2 / the kernel parameters), and mixed patterns where every
+    # operand contributes a dimension the others lack (the exhaustive enumeration over patterns is run_broadcast_checks)
+    cf.append(Cfg("rbf-batch-x2-only", rbf(), X(3, 2), X(2, 4, 2), fam="batch"))
+    cf.append(Cfg("rbf-batch-x1-only", rbf(ard=2), X(2, 3, 2), X(4, 2), fam="batch"))
+    cf.append(Cfg("rbf-batch-k-only", rbf(bs=(2,)), X(3, 2), X(4, 2), fam="batch"))
+    cf.append(Cfg("rbf-batch-x1-1-x2-3", rbf(), X(1, 3, 2), X(3, 4, 2), fam="batch"))
+    cf.append(Cfg("rbf-batch-k2-x2-31", rbf(bs=(2,)), X(3, 2), X(3, 1, 4, 2), fam="batch"))
+    cf.append(Cfg("rbf-batch-x1-21-x2-3", rbf(), X(2, 1, 3, 2), X(3, 4, 2), fam="batch"))
     cf.append(Cfg("rbf-last-dim-batch", rbf(), X(3, 2), X(4, 2), kw=dict(last_dim_is_batch=True), fam="batch"))
     cf.append(Cfg("rbf-eager", rbf(), X(3, 2), X(4, 2), fam="eager"))
     # the same kinds of kernels on inputs far from the origin (relative to the lengthscale) and with nearly coincident
@@ -349,6 +390,9 @@ def idx_class(cfg, idx, rank, empty):
                 if not cfg.kw.get("last_dim_is_batch") and xb[j] == 1 and cfg.D.shape[j] > 1 and kind(ex[j]) == "slice" and ex[j] != FULL \
                         and "slice-on-broadcast-batch-dim" not in tags:
                     tags.append("slice-on-broadcast-batch-dim")
+        kb = tuple(cfg.kernel.batch_shape)
+        if not cfg.kw.get("last_dim_is_batch") and len(kb) and kb != tuple(cfg.D.shape[:nb]) and any(c != FULL for c in ex[:nb]):
+            tags.append("batch-index-on-stretched-kernel")
         if cfg.kw.get("last_dim_is_batch") and (kind(ex[0]) != "slice" or absorbed):
             tags.append("lastdim-nonslice-index")
     if empty:
@@ -400,7 +444,7 @@ def check_expr(out, cfg, idx, mres, label):
     empty = want.numel() == 0
     cls = idx_class(cfg, idx, D.dim(), empty)
     out.case(case, not empty, label=label)
-    key = lambda what: "getitem:%s:%s:%s" % (cfg.name, cls, what)  # noqa: E731
+    key = lambda what: "getitem:%s:%s:%s" % (getattr(cfg, "keyname", cfg.name), cls, what)  # noqa: E731
     try:
         with torch.no_grad():
             r = cfg.K(lazy=(cfg.fam != "eager"))[pidx]
@@ -497,13 +541,17 @@ def tensor_exprs(cfg, rng):
     return out
 
 
-def run_index_checks(out, ctx, cfgs):
+def run_index_checks(out, ctx, cfgs, bc_cfgs=()):
     tier, seed = ctx["tier"], ctx["seed"]
     rng = random.Random(seed * 7919 + 6)
     steps = steps_for(tier)
     full_cfgs = {"rbf", "multitask", "rbf-batch-k-ad", "rbf-batch2-k"} if tier == "quick" else {c.name for c in cfgs}
     fam_cases, fam_meta, single = [], [], []
+    for cfg in bc_cfgs:
+        for idx in bcast_index_forms(list(cfg.D.shape)):
+            single.append((cfg, idx, "broadcast-pattern forms"))
     for cfg in cfgs:
+        check_lazy_dense(out, cfg)
         dims = list(cfg.D.shape)
         for (pre, suf, length) in family_plan(cfg, tier, rng):
             if cfg.name in full_cfgs:
@@ -526,7 +574,7 @@ def run_index_checks(out, ctx, cfgs):
     cq = ["(%s, %s)" % (C.z_list(list(cfg.D.shape)), coq_idx_list(idx)) for (cfg, idx, lab) in single]
     res = C.coq_run_cases("C06_idx", IMPORTS, "Definition run := run_index.", cq, shard=max(100, len(cq) // 16 + 1))
     for (cfg, idx, lab), mres in zip(single, res):
-        check_expr(out, cfg, idx, mres, "%s:%s" % (lab, cfg.name))
+        check_expr(out, cfg, idx, mres, ("%s:%s" % (lab, cfg.name)) if not cfg.name.startswith("bc:") else lab)
     out.extra["exhaustive_bound"] = ("at one position of the index tuple (row, column or batch; %d surrounding contexts per "
                                      "shape) ALL ints -len-1..len and ALL slices with start/stop in {None,%d..%d}, step in %s, "
                                      "on kernels %s; seeded samples of the same families on the other kernels"
@@ -752,6 +800,197 @@ def identity_case(out, g, name, fac, p, bs, ad, geom):
                          impl=got, model=want)
 
 
+# --------------------------------------------------------------------------- batch broadcast patterns
+# Every triple (batch shape of x1, of x2, of the kernel parameters) over BSHAPES: batch on one operand only, on every
+# pair, on all three, size-1 dimensions that stretch, operands of different rank.  The Coq model (Models/C06_bcast.v,
+# theorems batch_shape_absorbs_every_operand / batch_shape_dims / batch_source_in_bounds) gives the result batch shape
+# and, for every result element, the element of each operand it is read from; the reference tensor is assembled from
+# UNBATCHED kernels (one per kernel-batch element, parameters copied) on the unbatched inputs.  Checked against it:
+# .shape, to_dense() (lazy) and eager evaluation, diag=True / .diagonal(), K(x2,x1) / .mT, and index expressions.
+BSHAPES = [(), (1,), (2,), (3,), (2, 1), (1, 3), (2, 3)]
+BC_N, BC_M, BC_D = 3, 4, 2
+
+
+def bcast_kernel_zoo(gb):
+    """gb['g'] = the generator to draw parameters from (one per (pattern, kernel): the same in every tier)"""
+    from gpytorch import kernels as gk
+    bsz = lambda bs: torch.Size(bs)  # noqa: E731
+
+    def rbf_ard(bs, rnd=True):
+        k = gk.RBFKernel(ard_num_dims=BC_D, batch_shape=bsz(bs))
+        if rnd:
+            k.lengthscale = lin(gb["g"], 0.6, 1.8, *bs, 1, BC_D)
+        return k
+
+    def scale_matern(bs, rnd=True):
+        k = gk.ScaleKernel(gk.MaternKernel(nu=1.5, batch_shape=bsz(bs)), batch_shape=bsz(bs))
+        if rnd:
+            k.base_kernel.lengthscale = lin(gb["g"], 0.6, 1.8, *bs, 1, 1)
+            k.outputscale = lin(gb["g"], 0.5, 2.0, *bs)
+        return k
+
+    def sum_rbf_linear(bs, rnd=True):
+        a, b = gk.RBFKernel(batch_shape=bsz(bs)), gk.LinearKernel(batch_shape=bsz(bs))
+        if rnd:
+            a.lengthscale = lin(gb["g"], 0.6, 1.8, *bs, 1, 1)
+            b.variance = lin(gb["g"], 0.3, 1.5, *bs, 1, 1)
+        return a + b
+    return [("rbf-ard", rbf_ard), ("scale-matern15", scale_matern), ("rbf+linear", sum_rbf_linear)]
+
+
+def element_kernel(fac, kern, bs, pos):
+    """unbatched copy of batch element `pos` (flat) of the batched kernel `kern`"""
+    k0 = fac((), rnd=False)
+    src = dict(kern.named_parameters())
+    for nm, p0 in k0.named_parameters():
+        P = src[nm].data
+        assert tuple(P.shape) == tuple(bs) + tuple(p0.shape), (nm, P.shape, bs, p0.shape)
+        p0.data = P.reshape(-1, *p0.shape)[pos].clone()
+    return k0
+
+
+def parse_bcast(res, nops):
+    if res[0] == 0:
+        return None
+    rank = res[1]
+    shape = res[2:2 + rank]
+    n = math.prod(shape)
+    body = res[2 + rank:]
+    assert len(body) == nops * n
+    return tuple(shape), [body[i * n:(i + 1) * n] for i in range(nops)]
+
+
+def bshape_tag(b):
+    return "x".join(str(v) for v in b) or "-"
+
+
+def pattern_class(b1, b2, bk, r):
+    """which operands carry a batch dimension (of size > 1) that NO other operand has"""
+    rr = [1] * (len(r) - len(b1)) + list(b1), [1] * (len(r) - len(b2)) + list(b2), [1] * (len(r) - len(bk)) + list(bk)
+    own = []
+    for nm, me, others in (("x1", rr[0], (rr[1], rr[2])), ("x2", rr[1], (rr[0], rr[2])), ("kernel", rr[2], (rr[0], rr[1]))):
+        if any(me[j] > 1 and all(o[j] == 1 for o in others) for j in range(len(r))):
+            own.append(nm)
+    return "own-dims:" + ("+".join(own) or "none")
+
+
+def bcast_index_forms(dims):
+    R = len(dims)
+    forms = [["...", ["s", 1, None, None], ["s", None, 2, None]], ["...", 1, FULL], ["...", FULL, 0],
+             ["...", ["t", [2, 0]], FULL], [["s", None, None, None]]]
+    if R == 2:
+        forms += [[1], [FULL, 1], [["s", 1, None, None]]]
+    else:
+        b0 = dims[0]
+        forms += [[0], [b0 - 1], [-1], [["s", 1, None, None]], [["s", None, None, 2], "..."], [["t", [b0 - 1, 0]]],
+                  [0, "...", 1], [b0 - 1, "...", ["s", 1, None, None]], ["...", 0, 0]]
+        if R == 3:
+            forms += [[FULL, 1], [b0 - 1, 0], [b0 - 1, FULL, 1], [["t", [0, b0 - 1]], ["t", [1, 0]]]]
+        else:
+            b1 = dims[1]
+            forms += [[b0 - 1, b1 - 1], [FULL, b1 - 1], [b0 - 1, FULL, 1], [FULL, ["s", 1, None, None]], [["t", [0, b0 - 1]], b1 - 1],
+                      [b0 - 1, b1 - 1, 1, FULL]]
+    return forms
+
+
+def run_broadcast_checks(out, ctx):
+    """-> list of Cfg (reference tensors attached) whose index forms run_index_checks goes through"""
+    import gpytorch
+    tier, seed = ctx["tier"], ctx["seed"]
+    gb = {"g": torch.Generator().manual_seed(9090 + seed)}
+    zoo = bcast_kernel_zoo(gb)
+    triples = [(b1, b2, bk) for b1 in BSHAPES for b2 in BSHAPES for bk in BSHAPES]
+    res = C.coq_run_cases("C06_bcast", IMPORTS, "Definition run := run_bcast.",
+                          ["[%s; %s; %s]" % tuple("(%s : list Z)" % C.z_list(b) for b in t) for t in triples],
+                          shard=max(1, len(triples) // 16 + 1))
+    cfgs = []
+    for ti, ((b1, b2, bk), mres) in enumerate(zip(triples, res)):
+        mod = parse_bcast(mres, 3)
+        pat = "x1=%s:x2=%s:k=%s" % (bshape_tag(b1), bshape_tag(b2), bshape_tag(bk))
+        case = dict(x1_batch=list(b1), x2_batch=list(b2), kernel_batch=list(bk))
+        # machinery self-check: the Coq broadcast model against torch.broadcast_shapes / expand
+        try:
+            tr = tuple(torch.broadcast_shapes(b1, b2, bk))
+        except RuntimeError:
+            tr = None
+        if (mod is None) != (tr is None) or (mod is not None and mod[0] != tr):
+            out.fail("model:broadcast-shape", "Coq broadcast model gives %s, torch.broadcast_shapes gives %s" % (mod and mod[0], tr), case)
+            continue
+        if mod is None:
+            out.count("not broadcastable (outside the property)")
+            continue
+        r, srcs = mod
+        for b, pos in zip((b1, b2, bk), srcs):
+            want = torch.arange(math.prod(b)).reshape(b).expand(r).reshape(-1).tolist()
+            if want != pos:
+                out.fail("model:broadcast-source", "Coq model's source elements differ from torch's expand", case, impl=want, model=pos)
+        cls = pattern_class(b1, b2, bk, r)
+        for zi, (kname, fac) in enumerate(zoo):
+            if tier == "quick" and zi != ti % len(zoo):
+                continue
+            g = gb["g"] = torch.Generator().manual_seed(9090 + seed * 100003 + ti * 7 + zi)
+            kern = fac(bk)
+            x1, x2 = torch.randn(*b1, BC_N, BC_D, generator=g), torch.randn(*b2, BC_M, BC_D, generator=g)
+            desc = dict(case, kernel=kname, result_batch=list(r), pattern=cls)
+            kk = lambda what: "broadcast:%s:%s:%s" % (kname, cls, what)  # noqa: E731
+            full = dict(desc, x1=x1.tolist(), x2=x2.tolist(), params={n_: p_.tolist() for n_, p_ in kern.named_parameters()})
+            with torch.no_grad():
+                elems = [element_kernel(fac, kern, bk, q) for q in range(math.prod(bk))]
+                X1, X2 = x1.reshape(-1, BC_N, BC_D), x2.reshape(-1, BC_M, BC_D)
+                with gpytorch.settings.lazily_evaluate_kernels(False):
+                    blocks = [dense(elems[pk](X1[p1], X2[p2])) for p1, p2, pk in zip(*srcs)]
+                ref = torch.stack(blocks).reshape(*r, BC_N, BC_M)
+                out.case(dict(desc, what="broadcast-pattern"), True, label="broadcast:" + cls)
+                out.count("broadcast-kernel=" + kname)
+                cfg = Cfg("bc:%s:%s" % (kname, pat), kern, x1, x2, fam="batch", ref=ref)
+                cfg.keyname = ("bc-%s-%s" % (kname, cls)).replace(":", "=")
+                cfgs.append(cfg)
+                # eager evaluation
+                try:
+                    E = dense(cfg.K(lazy=False))
+                    if not eq(E, ref):
+                        out.fail(kk("eager"), "eager kernel(x1,x2) (shape %s) differs from the per-element reference (shape %s)"
+                                 % (list(E.shape), list(ref.shape)), full, impl=E, model=ref)
+                except Exception as e:
+                    out.fail(kk("eager:raises-" + exc_name(e)), "eager kernel(x1,x2) raises %r" % (repr(e)[:200],), full)
+                # lazy: shape, to_dense
+                try:
+                    Kl = cfg.K()
+                    shp = tuple(Kl.shape)
+                    if shp != tuple(ref.shape):
+                        out.fail(kk("lazy-shape"), "kernel(x1,x2).shape is %s, the broadcast of the three batch shapes gives %s"
+                                 % (list(shp), list(ref.shape)), full, impl=list(shp), model=list(ref.shape))
+                    Dl = dense(Kl)
+                    if not eq(Dl, ref):
+                        out.fail(kk("lazy-to_dense"), "kernel(x1,x2).to_dense() (shape %s) differs from the per-element reference "
+                                 "(shape %s)" % (list(Dl.shape), list(ref.shape)), full, impl=Dl, model=ref)
+                except Exception as e:
+                    out.fail(kk("lazy:raises-" + exc_name(e)), "kernel(x1,x2).shape / .to_dense() raises %r" % (repr(e)[:200],), full)
+                # diag (x2 cut to the rows of x1) and transpose
+                x2n = x2[..., :BC_N, :]
+                wantd = ref[..., :, :BC_N].diagonal(dim1=-1, dim2=-2)
+                for lab, f in (("diag=True", lambda: dense(kern(x1, x2n, diag=True))), ("lazy-diagonal", lambda: kern(x1, x2n).diagonal())):
+                    try:
+                        dg = f()
+                        if not eq(dg, wantd):
+                            out.fail(kk(lab), "%s of kernel(x1,x2') (shape %s) is not the diagonal of the reference (shape %s)"
+                                     % (lab, list(dg.shape), list(wantd.shape)), full, impl=dg, model=wantd)
+                    except Exception as e:
+                        out.fail(kk(lab + ":raises-" + exc_name(e)), "%s raises %r" % (lab, repr(e)[:200]), full)
+                for lab, f in (("swap", lambda: dense(kern(x2, x1))), ("lazy-mT", lambda: dense(kern(x1, x2).mT))):
+                    try:
+                        T = f()
+                        if not eq(T, ref.mT):
+                            out.fail(kk("transpose:" + lab), "%s (shape %s) is not the transposed reference (shape %s)"
+                                     % ("kernel(x2,x1)" if lab == "swap" else "kernel(x1,x2).mT", list(T.shape), list(ref.mT.shape)),
+                                     full, impl=T, model=ref.mT)
+                    except Exception as e:
+                        out.fail(kk("transpose:" + lab + ":raises-" + exc_name(e)), "%s raises %r" % (lab, repr(e)[:200]), full)
+    out.extra["broadcast_patterns"] = dict(batch_shapes=[list(b) for b in BSHAPES], triples=len(triples), kernels=[z[0] for z in zoo],
+                                           kernels_per_pattern=1 if tier == "quick" else len(zoo))
+    return cfgs
+
+
 # --------------------------------------------------------------------------- kernel table model vs Kernel.__getitem__
 
 def run_table_checks(out, ctx):
@@ -876,7 +1115,8 @@ def run(out, ctx):
     tie_t(out, ctx)
     run_table_checks(out, ctx)
     run_identity_checks(out, ctx)
-    run_index_checks(out, ctx, cfgs)
+    bc = run_broadcast_checks(out, ctx)
+    run_index_checks(out, ctx, cfgs, bc)
     out.exhaustive = True
     out.rule = ("index expressions: at every position of the tuple all ints and all slices (start/stop in {None,-5..5}) in "
                 "several contexts (other positions: omitted, full slice, int, slice, index tensor, Ellipsis), 1-D index tensors "
@@ -885,7 +1125,11 @@ def run(out, ctx):
                 "multi-output (Multitask, RBFKernelGrad, LCM, batched), last_dim_is_batch, eager; identities (diag, transpose, "
                 "lazy/eager, blocks, entrywise, repeat, active_dims, kernel[i], expand_batch) on 17 kernels x batch x active_dims x "
                 "input geometry (origin, offset 1e3 / 1e6 from the origin, inputs and length parameters scaled by 1e4, nearly "
-                "coincident rows, offset + nearly coincident); index checks also on far-offset / near-duplicate configurations. "
+                "coincident rows, offset + nearly coincident); index checks also on far-offset / near-duplicate configurations; "
+                "batch broadcast patterns: ALL triples (batch shape of x1, of x2, of the kernel) over {(), (1), (2), (3), (2,1), (1,3), "
+                "(2,3)} - batch on one operand only, on each pair, on all, stretching size-1 dimensions, different ranks - against "
+                "a reference assembled per batch element from unbatched kernels with the Coq broadcast model's source elements: "
+                "shape, lazy to_dense, eager, diag, transpose and a fixed set of index expressions per pattern. "
                 "non-trivial = the index is valid for the dense tensor and selects at least one entry; expressions torch "
                 "rejects are outside the property and only counted")
     out.extra["tolerances"] = {"same code evaluated on a subset of inputs vs gathered entries": ATOL,
@@ -904,7 +1148,11 @@ def replay(path):
     print("key:", d.get("key"))
     print("what:", d.get("what"))
     if "cfg" in case and "idx" in case:
-        cfgs = {c.name: c for c in make_configs(d.get("seed", 0))}
+        if str(case["cfg"]).startswith("bc:"):
+            tmp = C.Outcome("C06", d.get("tier", "quick"), d.get("seed", 0))
+            cfgs = {c.name: c for c in run_broadcast_checks(tmp, dict(tier="thorough", seed=d.get("seed", 0)))}
+        else:
+            cfgs = {c.name: c for c in make_configs(d.get("seed", 0))}
         cfg = cfgs[case["cfg"]]
         idx = case["idx"]
         mres = C.coq_run_cases("C06_replay", IMPORTS, "Definition run := run_index.",
@@ -928,6 +1176,11 @@ def replay(path):
             tie_t(out, ctx)
         elif str(d.get("key", "")).startswith("kernel-table"):
             run_table_checks(out, ctx)
+        elif str(d.get("key", "")).startswith(("broadcast:", "model:broadcast")):
+            run_broadcast_checks(out, dict(ctx, tier="thorough"))
+        elif str(d.get("key", "")).startswith("lazy:"):
+            for c in make_configs(ctx["seed"]):
+                check_lazy_dense(out, c)
         else:
             run_identity_checks(out, ctx)
         out.failures = [f for f in out.failures if f["key"] == d.get("key")]
